@@ -598,6 +598,98 @@ impl Prop for C06Walks {
     }
 }
 
+/// Exhaustive tree walk in perft order with ONE generator answering for every node:
+/// transposed paths meet again, so a cached verdict of a look-alike position would show.
+fn c06_tree(board: &mut Board, pos: &Pos, g: &mut MoveGenerator, depth: u32, st: &mut Stats) -> TestResult {
+    st.eval();
+    c06_node(pos, board, g, st, false)?;
+    if depth == 0 {
+        return Ok(());
+    }
+    for m in pos.legal_moves() {
+        let em = chess_move_of(&m);
+        em.apply(board).map_err(|e| fail_pos(format!("apply failed: {:?}", e), pos))?;
+        board.toggle_turn();
+        let r = c06_tree(board, &pos.make(&m), g, depth - 1, st);
+        board.toggle_turn();
+        em.undo(board).map_err(|e| fail_pos(format!("undo failed: {:?}", e), pos))?;
+        r?;
+    }
+    Ok(())
+}
+
+fn c06_tree_seeds(tier: Tier) -> Vec<(String, u32)> {
+    let mut v: Vec<(String, u32)> = Vec::new();
+    for (i, s) in C02_TREE_SEEDS.iter().enumerate() {
+        let d = match i {
+            0 | 1 => 4,
+            4 => 3,
+            _ => tier.pick(2, 3),
+        };
+        v.push((s.to_string(), d));
+    }
+    for s in gen::EXTRA_SEEDS {
+        v.push((s.to_string(), tier.pick(1, 2)));
+    }
+    v
+}
+
+fn run_c06_tree(env: &Env, agg: &mut Stats) -> Option<Violation> {
+    let seeds = c06_tree_seeds(env.tier);
+    let results: Vec<(Stats, Option<(String, Failure)>)> = seeds
+        .par_iter()
+        .map(|(fen, depth)| {
+            let pos = Pos::from_fen(fen).unwrap();
+            let mut st = Stats::default();
+            let mut board = to_board(&pos);
+            let mut g = MoveGenerator::new();
+            let r = no_panic(|| c06_tree(&mut board, &pos, &mut g, *depth, &mut st));
+            let f = match r {
+                Ok(Ok(())) => None,
+                Ok(Err(f)) => Some((fen.clone(), f)),
+                Err(p) => Some((fen.clone(), Failure::new(format!("panic: {}", p)))),
+            };
+            (st, f)
+        })
+        .collect();
+    let mut v = None;
+    for (st, f) in results {
+        agg.merge(st);
+        if v.is_none() {
+            if let Some((fen, f)) = f {
+                v = Some(violation("C06/tree-used-generator", json!({"seed": fen}), f));
+            }
+        }
+    }
+    v
+}
+
+fn replay_c06_tree(case: &Value) -> Result<TestResult, String> {
+    let fen = case["seed"].as_str().ok_or("no seed")?;
+    let pos = Pos::from_fen(fen)?;
+    let depth = c06_tree_seeds(Tier::Thorough)
+        .into_iter()
+        .find(|(f, _)| f == fen)
+        .map(|x| x.1)
+        .unwrap_or(3);
+    let mut st = Stats::default();
+    let mut board = to_board(&pos);
+    let mut g = MoveGenerator::new();
+    Ok(c06_tree(&mut board, &pos, &mut g, depth, &mut st))
+}
+
+pub fn c06_checks() -> Vec<Box<dyn DynCheck>> {
+    vec![
+        Box::new(C06Positions),
+        Box::new(C06Walks),
+        Box::new(FnCheck {
+            name: "C06/tree-used-generator",
+            run: run_c06_tree,
+            replay: replay_c06_tree,
+        }),
+    ]
+}
+
 // ------------------------------------------------------------------------------ C13
 
 pub const C13_RULE: &str = "positions biased to two..four like pieces (knights, bishops, rooks, queens incl. promoted ones) that can reach one square from different files and ranks (ambiguity theme: origins drawn from the squares attacking a chosen target), pinned look-alikes (pin theme), promotions, en passant, castling with check, plus placements and reachable walks; enumerate_candidate_moves_with_algebraic_notation (and Game::enumerated_candidate_moves on a slice) must give every legal move exactly the reference SAN (piece letter, minimal file -> rank -> square disambiguation among LEGAL like-piece moves to the square, 'x', pawn-capture file, '=Q/R/B/N', O-O/O-O-O, '+'/'#') and labels must be pairwise distinct. Non-trivial = at least two legal moves of like pieces share a destination (labels: same-file, same-rank, neither-shared, both-needed), or promotion/en-passant/castle-with-check present; distinct = position fingerprint.";
